@@ -38,10 +38,13 @@ from .. import c08_live as L
 PID = "C08"
 GEN = os.path.join(SPEC, "gen")
 ALL_FLAVOURS = ["full", "raw", "nodef", "rawnodef", "prim", "noinj", "lenient"]
-ALL_TEMPLATES = ["T1", "T2", "T3", "T4", "T5", "T6"]
+ALL_TEMPLATES = ["T1", "T2", "T3", "T4", "T5", "T6", "T7", "T8", "T9"]
+BASIC_TEMPLATES = ("T1", "T2", "T3", "T4", "T5", "T6")
+ALL_EDITS = ("aL", "aR", "v1", "v2", "v-")
+ALIAS = dict(edits=ALL_EDITS, addhows=("api", "ref"))
 P3 = ("default", "p1", "p2")
 DERIVED = dict(rivals=("0", "5"), ipvals=("B",))
-ALL_ACTS = {"Query", "SetCompVar", "DelCompVar", "SetArgs", "SetNp", "DelNp", "SetRi", "DelRi", "SetIp", "DelIp", "SetGlobal", "SetStageVar",
+ALL_ACTS = {"ReplaceSame", "Query", "SetCompVar", "DelCompVar", "SetArgs", "SetNp", "DelNp", "SetRi", "DelRi", "SetIp", "DelIp", "SetGlobal", "SetStageVar",
             "SetPlatformGlobal", "SetPlatformStage", "InPlaceGlobal", "InPlaceStage", "AddComp", "ReplaceComp",
             "DeleteComp", "MutateReturned"}
 ALL_KINDS = {"ok", "done", "ComponentUnknown", "VariableUnknown", "ConvertError", "ComponentExists", "KeyError", "PlatformUnknown"}
@@ -92,17 +95,18 @@ def write_module(name, stages, hits, extends="ConfigCache", extra=""):
     return name
 
 
-def write_cfg(name, vals=("1", "2"), flavours=ALL_FLAVOURS, templates=ALL_TEMPLATES, bases=(0,), lenient_poisons=False,
+def write_cfg(name, vals=("1", "2"), flavours=ALL_FLAVOURS, templates=BASIC_TEMPLATES, bases=(0,), lenient_poisons=False,
               hows=("api", "conf", "ref"), howdel=("api", "conf"), emit=False, maxlevel=100, spec="Spec", view=True,
               invariants=("TypeOK", "Coherent"), properties=("QueryFresh", "Private", "QueryPure"), constraint=None,
-              extra_const="", plats=("default", "p1"), argvals=("L", "R"), npvals=None, rivals=(), ipvals=(), derived_frozen=False):
+              extra_const="", plats=("default", "p1"), argvals=("L", "R"), npvals=None, rivals=(), ipvals=(), derived_frozen=False,
+              edits=(), addhows=("api",)):
     """plats: the platforms that are queried and addressed by the variable mutators ("p2" = the one created on demand)"""
     if npvals is None:
         npvals = tuple(vals) + ("R",)
     lines = ["CONSTANTS", "  CompSeq <- mcCompSeq", "  StageOf <- mcStageOf", "  Hits <- mcHits", "  PlatSeq <- mcPlatSeq",
              "  InitPlats = %s" % tla_set(L.INIT_PLATS), "  QueryPlats = %s" % tla_set(plats), "  MutPlats = %s" % tla_set(plats),
              "  SetArgVals = %s" % tla_set(argvals), "  SetNpVals = %s" % tla_set(npvals), "  RiVals = %s" % tla_set(rivals),
-             "  IpVals = %s" % tla_set(ipvals), "  DerivedFrozen = %s" % ("TRUE" if derived_frozen else "FALSE"),
+             "  IpVals = %s" % tla_set(ipvals), "  Edits = %s" % tla_set(edits), "  AddHows = %s" % tla_set(addhows), "  DerivedFrozen = %s" % ("TRUE" if derived_frozen else "FALSE"),
              "  Vals = %s" % tla_set(vals), "  Flavours = %s" % tla_set(flavours), "  Templates = %s" % tla_set(templates),
              "  BaseIds = {%s}" % ", ".join(str(b) for b in bases), "  LenientPoisons = %s" % ("TRUE" if lenient_poisons else "FALSE"),
              "  HowSet = %s" % tla_set(hows), "  HowDel = %s" % tla_set(howdel), "  Emit = %s" % ("TRUE" if emit else "FALSE"),
@@ -248,7 +252,7 @@ def _work(task):
         if r["edges"] is not None:
             steps = [r["edges"][i] for i in steps]
         active = L.ACTIVE[(wi + r["flip"]) % 2]
-        res = runner.run_walk(r["world"], active, r["init"], steps, widx=wi)
+        res = runner.run_walk(r["world"], active, r["init"], steps, widx=wi, track=r.get("track", False))
         agg["executed"] += res["executed"]
         agg["queries"] += res["queries"]
         agg["hits"] += res["hits"]
@@ -364,7 +368,10 @@ def alphabet(w, flavours=ALL_FLAVOURS):
                     muts.append(dict(act=act, c=c, p=U, st=-1, x=x, how=h))
         for t in ALL_TEMPLATES:
             muts.append(dict(act="AddComp", c=c, p=U, st=-1, x=t, how="api"))
+            muts.append(dict(act="AddComp", c=c, p=U, st=-1, x=t, how="ref"))
             muts.append(dict(act="ReplaceComp", c=c, p=U, st=-1, x=t, how="api"))
+        for e in ALL_EDITS:
+            muts.append(dict(act="ReplaceSame", c=c, p=U, st=-1, x=e, how="api"))
         muts.append(dict(act="DeleteComp", c=c, p=U, st=-1, x=U, how="api"))
     for x in ("1", "2"):
         muts.append(dict(act="SetGlobal", c=U, p="default", st=-1, x=x, how="api"))
@@ -402,6 +409,24 @@ def systematic_histories(w):
     for m1 in create:
         for m2 in touch:
             hs.append(fill + [m1] + fill + [m2] + after)
+    # update_component twice: (i) a fresh equal definition, (ii) a fresh different one, (iv) one that is equal under == but not
+    # in type (T7/T8/T9), and (iii) the same object again after an in-place edit of a nested section -- each after the cache
+    # was filled, followed by every query
+    c1 = w.labels[0]
+    repl = {m["x"]: m for m in muts if m["act"] == "ReplaceComp" and m["c"] == c1}
+    same = [m for m in muts if m["act"] == "ReplaceSame" and m["c"] == c1]
+    for t1 in ("T1", "T2", "T7", "T8", "T9"):
+        for t2 in ("T1", "T2", "T7", "T8", "T9"):
+            hs.append([repl[t1]] + fill + [repl[t2]] + after)
+    for t1 in ("T1", "T2", "T8"):
+        for m in same:
+            hs.append([repl[t1]] + fill + [m] + after)
+            hs.append([repl[t1]] + fill + [m] + fill + [m] + after)
+    dele = dict(act="DeleteComp", c=c1, p=U, st=-1, x=U, how="api")
+    for t1 in ("T2", "T8"):
+        add = [m for m in muts if m["act"] == "AddComp" and m["c"] == c1 and m["x"] == t1 and m["how"] == "ref"][0]
+        for m in same:
+            hs.append([dele, add] + fill + [m] + after)
     # an absent component: delete, then every mutator on it is an error and every query must fail (not be served from the cache)
     for c in w.labels:
         d = dict(act="DeleteComp", c=c, p=U, st=-1, x=U, how="api")
@@ -442,12 +467,14 @@ def _record(task):
         for i, call in enumerate(h):
             if call["act"] == "MutateReturned" and live.handed is None:
                 continue
+            if call["act"] == "ReplaceSame" and call["c"] not in live.held:
+                continue
             a = dict(call)
             kind, res = live.apply(a, variant=lo + t + i)
             a["hit"] = False
             a["ret"] = dict(kind=kind, **(L.project_result(res) if kind == "ok" else L.NO_RESULT))
             keys = live.cache_keys()
-            code = "%s|%s|%s" % (w.project_description(live.concrete.raw()), w.cache_code(set(keys.values())),
+            code = "%s|%s|%s" % (w.project_description(live.concrete.raw(), live.held), w.cache_code(set(keys.values())),
                                  live.handed_kind)
             steps.append({"a": a, "t": code})
             if kind.startswith("error:") or "?" in code:
@@ -521,7 +548,7 @@ def selftest(rid):
                 if not any(s["a"]["act"] == act for s in steps):
                     continue
                 tried += 1
-                res = runner.run_walk(r["world"], L.ACTIVE[wi % 2], r["init"], steps, widx=wi)
+                res = runner.run_walk(r["world"], L.ACTIVE[wi % 2], r["init"], steps, widx=wi, track=r.get("track", False))
                 if res["finding"] and res["finding"]["kind"] == "violation" and keypart in res["finding"]["key"]:
                     found = res["finding"]["key"]
                     break
@@ -568,6 +595,11 @@ def design_runs(chk, tier):
                                                                        plats=("default",), **noargs, **DERIVED, **api), None, 16, True))
         jobs.append(("platform created on demand, two stages", "ConfigCache_twostage", write_cfg("CC_d5_t", vals=("1",), templates=(), flavours=("full", "nodef", "raw"),
                                                                                                plats=P3, **noargs, **api), None, 16, False))
+    # update_component / add_component(insert_copy=False) share the caller's nested sections; resubmission of the same object after
+    # an in-place edit; definitions that are equal under == (T7, T8, T9)
+    jobs.append(("aliased definitions and == -equal replacements", "ConfigCache_exact",
+                 write_cfg("CC_d6_%s" % tier[0], vals=(), templates=("T7", "T8") if tier == "quick" else ("T2", "T7", "T8", "T9"), flavours=cached,
+                           argvals=(), npvals=("R",), **ALIAS, **api), None, 8, False))
     # expected-to-fail models: the deviations of the code, and the vacuity witnesses
     jobs.append(("deviation LenientPoisons", "ConfigCache_exact", write_cfg("CC_x1", vals=("1",), templates=("T5",), lenient_poisons=True, **api), "QueryFresh|Coherent", 2, False))
     jobs.append(("deviation Hits without self-hit", "ConfigCache_noself", write_cfg("CC_x2", vals=("1", "2"), templates=("T2",), **api), "QueryFresh|Coherent", 2, False))
@@ -632,7 +664,7 @@ def trace_tlc(world, hits, base, traces, tag):
     lit = "<<" + ",\n".join("[base |-> %d, steps |-> %s]" % (base, tla_value(t)) for t in traces) + ">>"
     mod = write_module("ConfigCache_tr_%s_%d_%s" % (world, base, tag), w.stages, hits, extends="ConfigCache_trace", extra="mcTraces == " + lit)
     cfg = write_cfg("CC_tr_%s_%d_%s" % (world, base, tag), bases=(base,), spec="TraceSpec", view=False, invariants=("Report", "Coherent"),
-                    properties=("TraceQueryFresh", "TracePrivate"), extra_const="  Traces <- mcTraces")
+                    properties=("TraceQueryFresh", "TracePrivate"), extra_const="  Traces <- mcTraces", **ALIAS)
     r = tlc_run(mod, cfg, workers=1, timeout=1500, expect_violation=True)
     if r["violated"] is not None:
         # the spec's own invariants cannot fail on a followed behaviour unless the model is broken
@@ -662,7 +694,7 @@ def trace_verdicts(chk, runner, world, base, base_code, traces, r, stats):
         rejected += 1
         upto = bad.get(t, reached.get(t, 0) + 1)
         sp = [spec_steps[t][i] for i in range(1, reached.get(t, 0) + 1)]
-        res = runner.run_walk(world, L.ACTIVE[t % 2], base_code, sp, widx=t)
+        res = runner.run_walk(world, L.ACTIVE[t % 2], base_code, sp, widx=t, track=True)
         fs = res["known"] + ([res["finding"]] if res["finding"] else [])
         for f in fs:
             if f["kind"] == "violation":
@@ -719,7 +751,9 @@ def _run_check(chk, tier, thorough, runner, sd):
         hits[wid] = {l: set(h[l]) | {l} for l in h}        # the design needs the self-hit; over-hits are modelled as observed
     stats = {w: {"steps": 0, "planned_steps": 0, "walks": 0, "queries": 0, "cache_hits": 0, "drift": 0, "violations": 0} for w in worlds}
     small = dict(flavours=("full", "raw", "lenient"), templates=("T2", "T5"))
-    everything = dict(plats=P3, **DERIVED)
+    everything = dict(plats=P3, templates=ALL_TEMPLATES, **DERIVED, **ALIAS)
+    alias = dict(flavours=("full", "raw", "lenient"), templates=("T2", "T7", "T8", "T9"), argvals=(), npvals=("R",), vals=("1",),
+                 hows=("api",), howdel=("api",), **ALIAS)
     derived = dict(flavours=("full", "prim", "noinj"), templates=("T6",), argvals=(), npvals=(), vals=("1",), **DERIVED)
     newplat = dict(flavours=("full", "nodef"), templates=(), argvals=(), npvals=(), plats=P3, hows=("api",), howdel=("api",))
     plan = []   # (world, base, maxlevel, tag, consts)
@@ -728,7 +762,8 @@ def _run_check(chk, tier, thorough, runner, sd):
                  ("stage", 0, 3, "small", dict(small, hows=("api", "ref"), howdel=("api",))), ("dot", 0, 3, "small", dict(small, hows=("api", "ref"), howdel=("api",))),
                  ("loop", 1, 3, "small", dict(small, hows=("conf",), howdel=("conf",))),
                  ("plus", 0, 3, "small", dict(small, hows=("api",), howdel=("api",))), ("paren", 0, 2, "small", small),
-                 ("prefix", 2, 3, "derived", derived), ("prefix", 0, 3, "newplat", newplat), ("stage", 1, 3, "newplat", newplat)]
+                 ("prefix", 2, 3, "derived", derived), ("prefix", 0, 3, "newplat", newplat), ("stage", 1, 3, "newplat", newplat),
+                 ("prefix", 0, 3, "alias", alias)]
         sim_worlds, (nsim, depth) = ("prefix", "stage"), (60, 40)
         tr_plan = [("prefix", 0), ("prefix", 1), ("prefix", 2), ("stage", 0), ("dot", 0), ("loop", 1), ("plus", 0)]
         ntr, ltr = 30, 40
@@ -736,7 +771,7 @@ def _run_check(chk, tier, thorough, runner, sd):
         plan += [("prefix", b, 3, "full", everything) for b in (0, 1, 2)]
         plan += [("stage", b, 3, "full", {}) for b in (0, 1, 2)]
         plan += [("stage", 2, 3, "derived", derived), ("stage", 0, 3, "newplat", dict(newplat, hows=("api", "conf", "ref"), howdel=("api", "conf"), templates=("T2",))),
-                 ("loop", 1, 3, "newplat", newplat), ("dot", 2, 3, "derived", derived)]
+                 ("loop", 1, 3, "newplat", newplat), ("dot", 2, 3, "derived", derived), ("stage", 0, 3, "alias", alias), ("dot", 1, 3, "alias", alias)]
         plan += [("dot", 0, 3, "full", {}), ("loop", 0, 3, "full", {}), ("loop", 1, 3, "small", small)]
         plan += [("prefix", 0, 4, "deep", dict(flavours=("full", "lenient"), templates=("T5",), hows=("api",), howdel=("api",), vals=("2",)))]
         plan += [("plus", 0, 3, "small", small), ("plus", 1, 3, "small", small), ("paren", 0, 3, "small", small)]
@@ -772,7 +807,7 @@ def _run_check(chk, tier, thorough, runner, sd):
             if init != L.World(p[0]).base_code(p[1]):
                 raise MachineryError("base description %s of the spec is %s, the driver expects %s" % (p[1], init, L.World(p[0]).base_code(p[1])))
             rid += 1
-            _RUNS[rid] = {"world": p[0], "init": init, "edges": edges, "walks": walks, "flip": rid}
+            _RUNS[rid] = {"world": p[0], "init": init, "edges": edges, "walks": walks, "flip": rid, "track": bool(p[4].get("edits"))}
             chk.add_tlc(r)
             execute(chk, rid, stats)
             stats[p[0]].setdefault("runs", []).append("%s base %d depth %d (%s): %d transitions, %d walks" % (p[0], p[1], p[2], p[3], len(edges), len(walks)))
@@ -794,7 +829,7 @@ def _run_check(chk, tier, thorough, runner, sd):
             r = fut.result()
             init, behs = behaviours_from_simulation(r["cases"])
             rid += 1
-            _RUNS[rid] = {"world": wid, "init": init, "edges": None, "walks": behs, "flip": rid}
+            _RUNS[rid] = {"world": wid, "init": init, "edges": None, "walks": behs, "flip": rid, "track": True}
             chk.add_tlc(r)
             execute(chk, rid, stats)
             stats[wid].setdefault("runs", []).append("%s base %d: %d simulated behaviours of depth %d" % (wid, b, len(behs), depth))
@@ -869,7 +904,7 @@ def replay(path):
     chk.replay_dir = os.path.join(chk.replay_dir, "replayed")      # do not overwrite the recorded cases
     os.makedirs(chk.replay_dir, exist_ok=True)
     rp = d["replay"]
-    res = _runner().run_walk(rp["world"], rp["active"], rp["init"], rp["steps"], widx=rp.get("widx", 0))
+    res = _runner().run_walk(rp["world"], rp["active"], rp["init"], rp["steps"], widx=rp.get("widx", 0), track=rp.get("track", False))
     for f in res["known"] + ([res["finding"]] if res["finding"] else []):
         if f["kind"] == "violation":
             chk.violation(f["key"], f["what"], f["replay"])
